@@ -135,6 +135,7 @@ def gen_cases(rng, tier):
         if idx % 4 == 1 and n > 0:       # the same program through a plain (not jit-wrapped) call of solve
             plain = copy.deepcopy(base)
             plain["jit"] = False
+            plain["verbose"] = idx % 8 == 1      # printing the losses must not change anything
             cases.append({"kind": "single", "segs": [plain]})
     # the Python-loop path (obs_batch_sharding given), single and resumed runs
     for n in ((3, 7) if tier == "quick" else (1, 2, 3, 5, 7, 9, 12)):
@@ -155,6 +156,7 @@ def gen_cases(rng, tier):
         if "w" not in pat and "s" not in pat:
             pat = pat[:1] + "w" + pat[2:]
         base["val"] = {"kind": "scripted", "call_every": c, "script": script_outcomes(pat)}
+        base["verbose"] = c == 2
         cases.append({"kind": "single", "segs": [base, _variant(rng, base)]})
     for _ in range(nresume):
         n, m = rng.choice([(1, 1), (2, 3), (3, 2), (5, 4), (4, 7), (8, 8), (6, 1), (12, 9)])
@@ -298,6 +300,8 @@ def tags(case, obs):
         out.append("obs_generator")
     if seg.get("val"):
         out.append("validation_module(no_stop)")
+    if seg.get("verbose"):
+        out.append("verbose=True")
     tr = seg.get("track")
     out.append("track=none" if tr is None else ("track=holes" if (tr["nn"] is None or tr["eq"] is None or
                any(v is None for g in ("nn", "eq") if tr[g] for v in tr[g].values())) else "track=all"))
